@@ -83,6 +83,7 @@ impl Tool {
     }
     fn args(&self, tok: &str, trace: &str) -> Value {
         match self {
+            Tool::Bash { work_ms, .. } if NOISY.load(std::sync::atomic::Ordering::SeqCst) => json!({"command": bash_cmd(tok, trace, *work_ms, None).replacen("; sleep", "; head -c 300 /dev/zero | tr '\\0' x; head -c 300 /dev/zero | tr '\\0' y 1>&2; sleep", 1), "max_bytes": 64}),
             Tool::Bash { work_ms, .. } => json!({"command": bash_cmd(tok, trace, *work_ms, None)}),
             Tool::Write => json!({"path": format!("w{tok}.txt"), "content": format!("written {tok}\n")}),
             Tool::Patch => json!({"patch": format!("*** Begin Patch\n*** Add File: p{tok}.txt\n+patched {tok}\n*** End Patch\n")}),
@@ -129,7 +130,15 @@ pub struct Scenario {
     /// first file-system effect on their target is delayed by this many ms
     #[serde(default)]
     pub slow_disk_ms: u64,
+    /// the artifact store cannot take spilled tool output (`.rip/artifacts/tmp` is a regular file)
+    /// and every shell tool call writes more than its preview limit on both streams before it
+    /// works: the call's output capture fails while the command is still running
+    #[serde(default)]
+    pub broken_spill: bool,
 }
+
+/// set for the duration of a scenario with `broken_spill` (read where tool arguments are built)
+static NOISY: std::sync::atomic::AtomicBool = std::sync::atomic::AtomicBool::new(false);
 
 pub struct C11;
 
@@ -202,7 +211,8 @@ pub fn generate(run_seed: u64, _tier: Tier) -> Scenario {
             slow_disk_ms = trng.range(10, 40);
         }
     }
-    Scenario { actors, plan: Plan { rules, random }, probe, workers, timeouts, slow_disk_ms }
+    let broken_spill = Rng::derive(run_seed, "c11:broken-spill").chance(1, 6);
+    Scenario { actors, plan: Plan { rules, random }, probe, workers, timeouts, slow_disk_ms, broken_spill }
 }
 
 // ---------------------------------------------------------------------------------------------
@@ -275,6 +285,14 @@ fn read_trace(path: &Path) -> Vec<(char, String, f64)> {
 }
 
 pub fn execute(sc: &Scenario, env: &Env) -> (Outcome, RunStats) {
+    struct NoisyReset;
+    impl Drop for NoisyReset {
+        fn drop(&mut self) {
+            NOISY.store(false, std::sync::atomic::Ordering::SeqCst);
+        }
+    }
+    NOISY.store(sc.broken_spill, std::sync::atomic::Ordering::SeqCst);
+    let _noisy_reset = NoisyReset;
     let mut stats = RunStats::default();
     stats.case_hash = fnv1a(serde_json::to_string(sc).unwrap_or_default().as_bytes());
     let _ = esim::panics_take();
@@ -335,6 +353,12 @@ pub fn execute(sc: &Scenario, env: &Env) -> (Outcome, RunStats) {
         }
     };
     let _ = std::fs::write(engine.ws.join("seed.txt"), "seed line\nsecond\n");
+    if sc.broken_spill {
+        let _ = std::fs::create_dir_all(engine.ws.join(".rip/artifacts"));
+        let _ = std::fs::remove_dir_all(engine.ws.join(".rip/artifacts/tmp"));
+        let _ = std::fs::write(engine.ws.join(".rip/artifacts/tmp"), "not a directory\n");
+        stats.bump("fault:artifact_spill_dir_is_a_file", 1);
+    }
     let _ = std::fs::write(&trace, "");
     FS_LOG.lock().unwrap().clear();
     {
